@@ -59,7 +59,8 @@ let run_fpos (args : string list) : string =
      | Err _ -> "err" | Panic -> "panic" | OutOfFuel -> "fuel")
   | _ -> "bad-args"
 
-(* fsheet xls SHEETS NAMES XTIS RECS: the formula range of one sheet substream (FORMULA / SHRFMLA /
+(* fsheet xlsb SHEETS NAMES RECS: the same for the records of an xlsb sheet part after BrtBeginSheetData.
+   fsheet xls SHEETS NAMES XTIS RECS: the formula range of one sheet substream (FORMULA / SHRFMLA /
    ARRAY / EOF and ignored records; typ:hexpayload,…), SHEETS as the decoder's table holds them
    (quoted), NAMES / XTIS as for `ptg`; answer in the format of `open … formula` *)
 let range_str (r : BinNums.coq_N list Range.range) : string =
@@ -77,6 +78,11 @@ let run_fsheet (args : string list) : string =
     let unrec _ _ = List.map (fun c -> Conv.n_of_int (Char.code c)) ['?'] in
     (match FormulaSheet.xls_sheet_formula_range Cmd_ptg.show_f64 unrec (name_list sh) (name_list nm)
              (Cmd_ptg.xti_list xt) (recs rs) with
+     | Ok r -> range_str r
+     | Err _ -> "err" | Panic -> "panic" | OutOfFuel -> "fuel")
+  | ["xlsb"; sh; nm; rs] ->
+    (* the records of a sheet part that follow BrtBeginSheetData; SHEETS = extern_sheets as resolved *)
+    (match FormulaSheet.xlsb_sheet_formula_range Cmd_ptg.show_f64 (name_list sh) (name_list nm) (recs rs) with
      | Ok r -> range_str r
      | Err _ -> "err" | Panic -> "panic" | OutOfFuel -> "fuel")
   | _ -> "bad-args"
